@@ -149,7 +149,7 @@ pub fn run(ctx: &Ctx) -> usize {
   }
   // through the day / hour objects
   let mut rng = ctx.rng(1801);
-  let n = if ctx.quick() { 300 } else { 6000 };
+  let n = if ctx.quick() { 2000 } else { 6000 };
   for _ in 0..n {
     let j = rng.range(1721424 + 400, 5373484 - 800);
     let hh = rng.range(0, 23);
@@ -187,7 +187,7 @@ pub fn run(ctx: &Ctx) -> usize {
       .a("wha", &want_ha).a("ha1", &ha1).a("ha2", &ha2).a("whb", &want_hb).a("hb1", &hb1).a("hb2", &hb2).done());
   }
   // kitchen god
-  let years: Vec<i64> = if ctx.quick() {
+  let years: Vec<i64> = if false {
     let mut v: Vec<i64> = vec![-1, 0, 1, 2, 9, 24, 240, 1582, 2017, 2023, 2024, 9998, 9999];
     for _ in 0..400 {
       v.push(rng.range(0, 9999));
